@@ -27,13 +27,19 @@ Fixpoint span_sp (l : str) : nat * str :=
   | [] => (O, [])
   end.
 
-(* the dedent loop:  while True: s += DEDENT; if level >= stack[-1]: break; stack.pop()
+(* the dedent loop:
+     while True:
+         s += DEDENT
+         if level >= stack[-1] or len(stack) == 2: break
+         stack.pop()
+     stack[-1] = level
    returns the number of DEDENT lines and the stack; None = IndexError on an empty stack *)
 Fixpoint dedent_loop (level : Z) (stack : list Z) (acc : nat) : option (nat * list Z) :=
   match stack with
   | [] => None
   | top :: rest =>
-      if (level >=? top)%Z then Some (S acc, stack) else dedent_loop level rest (S acc)
+      if (level >=? top)%Z || Nat.eqb (length stack) 2 then Some (S acc, level :: rest)
+      else dedent_loop level rest (S acc)
   end.
 
 Inductive marker := MInd | MDed.
